@@ -4,7 +4,8 @@ import time
 
 from .. import components, twin
 
-FRONT_ENDS = ["order", "nbc"]
+FRONT_ENDS = ["order", "nbc", "driver"]
+FRONT_END_FILTER = {"driver": "CMA-ES must be told"}
 EXPLANATION = "mirror theorems for every comparison-based component on fitness keys; real components called on both formulations; twin seeded runs for index-stable engines"
 ASSUMPTIONS = ["NaN fitness is outside the property (pyhms draws a coin)", "CMA-ES / scipy / qmc / numpy generators are deterministic functions of their inputs and seeds (contract X8)"]
 
